@@ -67,6 +67,7 @@ def check(P, rep):
     # 'registered and still-retained signer set' rests on the rotation bookkeeping and the epoch counter
     include_rules(P, rep, 'C01.R8', 'c03', lambda o: o['rule'] in ('C03.R2',), 'signer sets are registered under exactly their installation epoch (C03.R2)', 8)
     include_rules(P, rep, 'C01.R8', 'c08', lambda o: o['rule'] in ('C08.R4',), 'the epoch counter counts installed sets (C08.R4)', 4)
+    require_overflow_checks(P, rep, 'C01.R1')
     # R5 who-may-write
     nw = 0
     for cn, en in P.all_entries():
@@ -85,6 +86,12 @@ def check(P, rep):
                 nw += 1
                 rep.check(en == '__constructor' and e.kind == 'sw', 'C01.R5', '%s:%s-writer' % (en, v), '%s is constructor-only' % v, esite(g, e), e.describe()[:160])
     rep.floor('auth-state writers', nw, 9)
+    if '__constructor' in c.entries:
+        gc = P.graph(CN, '__constructor')
+        for variant, pi in (('DomainSeparator', 3), ('MinimumRotationDelay', 4), ('PreviousSignerRetention', 5)):
+            ws = [e for e in state_effects(gc) if e.kind == 'sw' and key_variant(e.key)[0] == variant and core(e.val) == gc.P(pi)]
+            rep.check(bool(ws) and gc.success_needs([e.node for e in ws]), 'C01.R5', 'constructor:installs-%s' % variant,
+                      'successful construction stores %s from its parameter' % variant, entry_id(gc))
     # exactly one proof validator: every ed25519_verify site found is inside a graph checked above
     nver = 0
     for cn, en in P.all_entries():
